@@ -445,6 +445,7 @@ def check_main(prop, argv=None):
     ap.add_argument("--no-selfcheck", action="store_true")
     ap.add_argument("--wall-cap", type=float)
     ap.add_argument("--no-evidence", action="store_true")
+    ap.add_argument("--dump-digests", help="write the sorted set of event digests of this batch to FILE (determinism self-test)")
     args = ap.parse_args(argv)
     verif_seed = int(os.environ.get("VERIF_SEED", "0"))
     tier = args.tier
@@ -486,6 +487,9 @@ def check_main(prop, argv=None):
     det_n = min(24 if tier == "quick" else 64, nseeded)
     agg = run_pool(prop, indices, verif_seed, tier, args.workers, wall_cap, keep_digests_for=range(det_n))
     t_explore = time.monotonic() - t0
+    if args.dump_digests:
+        with open(args.dump_digests, "w") as f:
+            json.dump(sorted(agg["digests"]), f)
 
     exit_code = 0
     harness_msgs = []
